@@ -126,3 +126,25 @@ extern "C" void h_nest(void)
 	vp_assert(depth == d && (int)*p == t[obj ? 5 * d : d] - '0', "nesting depth and leaf preserved");
 	vp_reach(3);
 }
+
+// member names around the 15/16-byte inline/heap boundary of String: p0 = key length (first and last character symbolic); p1 = 0 JSON / 1 XDL identifier key
+extern "C" void h_longkey(void)
+{
+	int kl = vp_param(0), xdl = vp_param(1);
+	char t[80]; char key[40]; int n = 0;
+	t[n++] = '{'; if (!xdl) t[n++] = '"';
+	for (int i = 0; i < kl; i++) {
+		char c = (char)('a' + i % 26);
+		if (i == 0 || i == kl - 1) { c = (char)nondet_u8(); vp_assume((c >= 'a' && c <= 'z') || (c >= 'A' && c <= 'Z') || c == '_'); }      // first and last character symbolic
+		key[i] = c; t[n++] = c;
+	}
+	key[kl] = 0;
+	if (!xdl) t[n++] = '"';
+	t[n++] = xdl ? '=' : ':'; t[n++] = '7'; t[n++] = '}'; t[n] = 0;
+	Var v = xdl ? Xdl::decode(t) : Json::decode(t);
+	vp_assert(v.ok() && v.is(Var::DIC), "an object with one member decodes");
+	vp_assert(v.length() == 1 && v.has(String(key)), "the member is stored under exactly the name given (names longer than the inline string capacity included)");
+	vp_assert((int)v[String(key)] == 7, "the member has its value");
+	vp_note(v.length());
+	vp_reach(5);
+}
